@@ -98,6 +98,9 @@ func GenChainPlan(rt *rapid.T, p *GenParams) *ChainPlan {
 		switch st.Op {
 		case "kvtx":
 			st.Prog = genProg(rt, 0)
+		case "invoke":
+			st.Prog = genProgC09(rt, 0)
+			st.Flag = rapid.IntRange(0, 4).Draw(rt, "stale") == 4
 		case "walk":
 			st.Flag = rapid.IntRange(0, 5).Draw(rt, "prune") == 5
 		case "tx":
@@ -119,4 +122,19 @@ func GenChainPlan(rt *rapid.T, p *GenParams) *ChainPlan {
 		pl.Steps = append(pl.Steps, st)
 	}
 	return pl
+}
+
+// genProgC09 draws programs that also fail (status >= 400 / error) part of the time.
+func genProgC09(rt *rapid.T, depth int) []KOp {
+	prog := genProg(rt, depth)
+	if rapid.IntRange(0, 2).Draw(rt, "cp") == 0 {
+		prog = append(prog, KOp{Op: "cp", K: rapid.SampledFrom(kvKeys).Draw(rt, "cpsrc"), V: rapid.SampledFrom(kvKeys).Draw(rt, "cpdst")})
+	}
+	switch rapid.IntRange(0, 9).Draw(rt, "failkind") {
+	case 8:
+		prog = append(prog, KOp{Op: "fail", Status: rapid.SampledFrom([]int{400, 500}).Draw(rt, "status")})
+	case 9:
+		prog = append(prog, KOp{Op: "err"})
+	}
+	return prog
 }
